@@ -586,7 +586,8 @@ def follow_oracle(which):
                         missing = [r for r in existed if r not in before]
                         if missing:
                             bad.append(f"follower {k}: frames {missing} existed when the read began but were not delivered before the threshold")
-                    if o["follow"] and not o["tail"] and o["limit"] is None and complete:
+                    # completeness is owed only "for as long as its stream is open" (a lagging follower's stream ends: C11)
+                    if o["follow"] and not o["tail"] and o["limit"] is None and complete and final.get(k, "open") == "open":
                         if nthr != 1:
                             bad.append(f"follower {k}: expected exactly one threshold marker, got {nthr}")
                         stored = [r for r, f in frames.items() if f["ok"] and not f["eph"] and scope(r)
